@@ -599,6 +599,52 @@ def check_include(case, acc):
     sweep_paths(model, dict(case, files=files), acc, 0, fetch=fetch, loader=loader)
 
 
+INCLUDE_CALLS = [
+    ('partial-made-in-main-called-in-include', {
+        'n.bare': "function work(k, a):\n    systemLog('w' + k + a)\n    nn = a + 1\n    return nn\nendfunction\npf = systemPartial(work, 'p')\nsystemLog('main')\ninclude 'c.bare'\nsystemLog('back')\n",
+        'c.bare': "systemLog('child')\nr1 = pf(1)\nr2 = pf(2)\nsystemLog('child-end')\n"}),
+    ('partial-made-in-include-called-in-main', {
+        'n.bare': "function work(k, a):\n    systemLog('w' + k + a)\n    nn = a + 1\n    return nn\nendfunction\ninclude 'c.bare'\nr1 = pf(1)\nr2 = pf(2)\nsystemLog('end')\n",
+        'c.bare': "pf = systemPartial(work, 'q')\nsystemLog('child')\n"}),
+    ('function-defined-in-include-called-in-main-and-sibling', {
+        'n.bare': "include 'c.bare'\nr1 = work(1)\ninclude 'd.bare'\nsystemLog('end')\n",
+        'c.bare': "function work(a):\n    systemLog('w' + a)\n    return a\nendfunction\n",
+        'd.bare': "r2 = work(2)\nr3 = work(3)\n"}),
+    ('callback-made-in-include', {
+        'n.bare': "include 'c.bare'\nix = arrayIndexOf(arrayNew(10, 20, 30), pred)\nsystemLog('ix' + ix)\n",
+        'c.bare': "function pred(v):\n    systemLog('p' + v)\n    return v == 30\nendfunction\n"}),
+]
+
+
+def check_include_call(case, acc):
+    bs = load_impl()
+    name, files = INCLUDE_CALLS[case['i']]
+    model = bs.parse_script(files['n.bare'])
+    cache = {}
+
+    def loader(url):
+        key = urls.normalize(url)
+        if key not in files:
+            return None
+        if key not in cache:
+            cache[key] = bs.parse_script(files[key])['statements']
+        return cache[key]
+
+    def fetch(req):
+        return files.get(urls.normalize(req['url']))
+
+    sweep_paths(model, dict(case, name=name, files=files), acc, 0, fetch=fetch, loader=loader)
+
+
+def fam_include_calls(arg):
+    acc = Acc('include_calls')
+    for i in arg:
+        acc.cases += 1
+        check_include_call({'i': i}, acc)
+        acc.sample({'name': INCLUDE_CALLS[i][0], 'files': INCLUDE_CALLS[i][1]})
+    return acc.result()
+
+
 def fam_includes(arg):
     depth, style, ts = arg
     acc = Acc('includes')
@@ -637,6 +683,7 @@ def families(tier):
         Family('structured', fam_structured, split(specs, 48), 'parsed counter-controlled nesting chains (global and function scope) x tapes with <= 1 deviation x every limit',
                expected=len(specs)),
         Family('fcond', fam_fcond, split(fspecs, 48), 'the counter-controlled nesting chains with every if/elif/while guard condition computed by a script function (statements run from a condition are counted) x tapes with <= 1 deviation x every limit', expected=len(fspecs)),
+        Family('include_calls', fam_include_calls, [[i] for i in range(len(INCLUDE_CALLS))], 'function values crossing an include boundary: a partial made in the includer and called in the included script and vice versa, a function defined in an include and called later, a callback defined in an include - every limit', expected=len(INCLUDE_CALLS)),
         Family('selfcount', fam_selfcount, [[i] for i in range(len(SELFCOUNT))], 'scripts whose callback count depends on a library algorithm (arraySort comparators): reference-free sweep of every limit against the unlimited run', expected=len(SELFCOUNT)),
         Family('callpaths', fam_callpaths, [[i] for i in range(len(CALLPATHS))], 'hand-written call paths: recursion, callbacks, systemPartial, data helpers with/without variables',
                expected=len(CALLPATHS)),
@@ -645,7 +692,7 @@ def families(tier):
     ]
 
 
-_CHECKS = {'selfcount': check_selfcount, 'fcond': check_fcond, 'lists': check_list, 'fnlists': check_fnlist, 'structured': check_structured, 'callpaths': check_callpath, 'includes': check_include}
+_CHECKS = {'include_calls': check_include_call, 'selfcount': check_selfcount, 'fcond': check_fcond, 'lists': check_list, 'fnlists': check_fnlist, 'structured': check_structured, 'callpaths': check_callpath, 'includes': check_include}
 
 
 def replay(family, case):
